@@ -22,7 +22,7 @@
 From Coq Require Import NArith ZArith List String Bool.
 From V Require Import Base.UString Base.Json Model.SchemaTypes Model.PyBase Model.Schema
      Spec.StixValid Spec.SchemaRefine Gen.Tables Gen.SpecTables
-     Proofs.SchemaTables Proofs.SchemaComplete
+     Model.SchemaRun Proofs.SchemaBasics Proofs.SchemaObject Proofs.SchemaTables Proofs.SchemaComplete
      Proofs.SchemaCompKinds Proofs.SchemaCompObject Proofs.SchemaCompRun Proofs.SchemaCompC03.
 Import ListNotations.
 
@@ -115,3 +115,82 @@ Theorem spec_complete_partial_generated_tables :
                    exists s, find_slot c k = Some s /\ sdef s <> DNone).
 Proof. exact spec_complete_partial_lib. Qed.
 Print Assumptions spec_complete_partial_generated_tables.
+
+(* The same two statements with the conclusion about NOT-given properties strengthened from "the slot has some
+   default" to "what is stored IS that default" (reviewer's point C03-2; proofs by r-c02-cov, Proofs/SchemaCompRun.v:
+   default_entry vr ev c k x = the slot of k has a default and x is the fixed value / the constructor's clock reading
+   cleaned for the property's precision / "<prefix><uuid4>" / the constant -- or, for the id of a 2.1 observable with
+   contributing properties, the deterministic "<type>--<uuid5>" written over the uuid4 default). *)
+Theorem spec_complete_partial_defaults :
+  forall (vr : variant) (ev : env) (w sp : world) pattern_ok selectors_ok cid mem m,
+    variant_complete vr = true -> env_complete ev = true -> spec_refines sp w = true ->
+    valid_obj sp pattern_ok (S m) cid (JObj mem) = true -> NoDup (map fst mem) ->
+    class_complete w sp cid = true ->
+    (forall c sc, find_class (wclasses w) cid = Some c -> find_class (wclasses sp) cid = Some sc ->
+                  input_complete c sc mem = true) ->
+    exists c sc inner dfl,
+      find_class (wclasses w) cid = Some c /\ find_class (wclasses sp) cid = Some sc /\
+      run vr ev w pattern_ok selectors_ok (S m) (RConstruct cid false false mem None) = Ok (PObject cid inner dfl false) /\
+      (forall k v, In (k, v) mem -> exists x s', alookup k inner = Some x /\ find_slot sc k = Some s' /\
+                                                 jsame (skind s') v (encode true x)) /\
+      (forall k x, alookup k inner = Some x -> alookup k mem = None -> default_entry vr ev c k x).
+Proof. exact spec_complete_partial_defaults_gen. Qed.
+Print Assumptions spec_complete_partial_defaults.
+
+Theorem spec_complete_partial_defaults_generated_tables :
+  forall (vr : variant) (ev : env) pattern_ok selectors_ok cid mem m,
+    variant_complete vr = true -> env_complete ev = true ->
+    valid_obj spec_restricted pattern_ok (S m) cid (JObj mem) = true -> NoDup (map fst mem) ->
+    In cid lib_complete ->
+    (forall c sc, find_class (wclasses lib) cid = Some c -> find_class (wclasses spec_restricted) cid = Some sc ->
+                  input_complete c sc mem = true) ->
+    exists c sc inner dfl,
+      find_class (wclasses lib) cid = Some c /\ find_class (wclasses spec_restricted) cid = Some sc /\
+      run vr ev lib pattern_ok selectors_ok (S m) (RConstruct cid false false mem None) = Ok (PObject cid inner dfl false) /\
+      (forall k v, In (k, v) mem -> exists x s', alookup k inner = Some x /\ find_slot sc k = Some s' /\
+                                                 jsame (skind s') v (encode true x)) /\
+      (forall k x, alookup k inner = Some x -> alookup k mem = None -> default_entry vr ev c k x).
+Proof. exact spec_complete_partial_defaults_lib. Qed.
+Print Assumptions spec_complete_partial_defaults_generated_tables.
+
+(* the hypotheses are jointly satisfiable on non-trivial inputs; every hypothesis of
+   spec_complete_partial_generated_tables is evaluated by the kernel.  The full set is shown on a 2.1 ipv4-addr with
+   reference lists (a class whose table the proposed repair of C02-modified-before-created would not touch, so that
+   this file also compiles on a tree that carries it); the reviewer's witness, a 2.1 identity with
+   object_marking_refs, is shown valid and representable. *)
+Definition ex_pok : ver -> ustring -> bool := fun _ _ => false.
+Definition ex_ipv4 : list (ustring * jvalue) :=
+  [ (u "type", JStr (u "ipv4-addr")); (u "spec_version", JStr (u "2.1"));
+    (u "id", JStr (u "ipv4-addr--ff26c055-6336-5bc5-b98d-13d6226742dd"));
+    (u "value", JStr (u "198.51.100.3"));
+    (u "resolves_to_refs", JArr [JStr (u "mac-addr--8d1c5bdf-5a0e-4b8e-9a3c-1f2e3d4c5b6a")]);
+    (u "belongs_to_refs", JArr [JStr (u "autonomous-system--8d1c5bdf-5a0e-4b8e-9a3c-1f2e3d4c5b6b")]);
+    (u "defanged", JBool false) ].
+
+Example hypotheses_satisfiable_ipv4 :
+  variant_complete variant_repaired = true /\ env_complete SchemaRun.sentinel_env = true /\
+  valid_obj spec_restricted ex_pok 8 (u "2.1/IPv4Address") (JObj ex_ipv4) = true /\
+  NoDup (map fst ex_ipv4) /\ In (u "2.1/IPv4Address") lib_complete /\
+  (forall c sc, find_class (wclasses lib) (u "2.1/IPv4Address") = Some c ->
+                find_class (wclasses spec_restricted) (u "2.1/IPv4Address") = Some sc -> input_complete c sc ex_ipv4 = true).
+Proof.
+  split; [reflexivity|]. split; [vm_compute; reflexivity|]. split; [vm_compute; reflexivity|].
+  split; [apply unodup_NoDup; vm_compute; reflexivity|]. split; [apply (proj1 (mem_ustr_In _ _)); vm_compute; reflexivity|].
+  intros c sc Hc Hsc.
+  assert (E : match find_class (wclasses lib) (u "2.1/IPv4Address"), find_class (wclasses spec_restricted) (u "2.1/IPv4Address") with
+              | Some c, Some sc => input_complete c sc ex_ipv4 | _, _ => false end = true) by (vm_compute; reflexivity).
+  rewrite Hc, Hsc in E. exact E.
+Qed.
+
+Definition ex_identity : list (ustring * jvalue) :=
+  [ (u "type", JStr (u "identity")); (u "spec_version", JStr (u "2.1"));
+    (u "id", JStr (u "identity--8d1c5bdf-5a0e-4b8e-9a3c-1f2e3d4c5b6a"));
+    (u "created", JStr (u "2016-01-01T00:00:00.000Z")); (u "modified", JStr (u "2016-01-02T00:00:00.123Z"));
+    (u "name", JStr (u "John Smith")); (u "confidence", JInt 100%Z);
+    (u "object_marking_refs", JArr [JStr (u "marking-definition--613f2e26-407d-48c7-9eca-b8e91df99dc9")]) ].
+
+Example identity_valid_and_representable :
+  valid_obj spec_restricted ex_pok 8 (u "2.1/Identity") (JObj ex_identity) = true /\ NoDup (map fst ex_identity) /\
+  match find_class (wclasses lib) (u "2.1/Identity"), find_class (wclasses spec_restricted) (u "2.1/Identity") with
+  | Some c, Some sc => input_complete c sc ex_identity | _, _ => false end = true.
+Proof. split; [vm_compute; reflexivity|]. split; [apply unodup_NoDup; vm_compute; reflexivity|vm_compute; reflexivity]. Qed.
